@@ -60,7 +60,16 @@ func init() {
 			"invocation returned; OnHandle hooks do the same to params.Event after the wrapped handler returned. Groups draw their handlers from 3 types (several handlers of one type are the norm) and " +
 			"may list the very same handler object twice; a Nacked copy is redelivered, so the same handler meets the same message again after having changed its previous value. " +
 			"The oracle is a reference dispatch function of (registry, flags, message, failure script) that fixes per delivered copy the ordered handler invocations, their values " +
-			"(independent decode with encoding/json / protobuf) and Ack vs Nack. A case is non-trivial when it saw at least one handler invocation, one delivery whose name matched " +
+			"(independent decode with encoding/json / protobuf) and Ack vs Nack. " +
+			"SENDING SIDE (burst.go; class = marshaler/generator/send mode): the publisher behind the two buses STORES the messages it is given (an outbox / persistent or batching publisher / a queue in " +
+			"front of a busy handler). All sends of a case form one burst that completes before any stored message is handed to a processor: the stream's own bus sends plus 0/3/6/12/24 extra sends " +
+			"(random types of the family, both buses, stored only) in a random order, either back to back from one goroutine (seq: each send judged as soon as it returned, topic tag changing between sends) " +
+			"or from 2-4 goroutines started together that share the two buses, the marshaler and the publisher (conc: sends attributed to Publish calls afterwards by (topic, name, decoded value), " +
+			"preferring the call whose message carries the send's context). In 40% of the cases 4-16 further sends run on their own goroutine WHILE the processors handle the stored messages (one send per " +
+			"hand-over / handler entry). A delivered copy of a bus message is stored.Copy(): it shares the payload slice the marshaler produced, as with GoChannel. Clause published-value-kept: every stored " +
+			"message is compared with the deep snapshot taken inside Publish (a) when the burst has returned, (b) each time a copy is handed to a processor, (c) after the run (deliveries settled, Router closed); " +
+			"different bytes are accepted only if they still decode to the value sent, the name metadata must be unchanged; handler values and settlements are always judged against the Publish-time snapshot. " +
+			"Data races with a watermill / codec frame fail the property (a payload written while a stored message is read). A case is non-trivial when it saw at least one handler invocation, one delivery whose name matched " +
 			"no handler and one Nack; distinct = distinct (configuration, registry shape, per-delivery outcome) hashes.",
 		Assumptions: []string{
 			"handlers return errors only (panics are the Router's business, not the processors')",
@@ -70,9 +79,12 @@ func init() {
 			"never-settled / never-returning is decided by the quiescence detector, not by a time-out",
 			"\"the handler's context exposes the original message\" = cqrs.OriginalMessageFromCtx(ctx) is the *message.Message being handled (pointer identity), whatever values the incoming message's context already carried; nothing is demanded about the other values of the context",
 			"a handler (and an OnHandle hook, once the wrapped handler returned) may change and keep the value it was handed - it is a pointer to a value decoded for that invocation; \"a value equal to the one sent\" is judged on a deep copy taken at handler entry, so each invocation (next handler of the group, same handler on the redelivered copy, next message) must see the sent value whatever earlier invocations did to theirs. A write through a retained pointer is performed at the next handler/hook entry of the same subscription: for correct code it cannot alias the value of the new invocation",
+			"a publisher may keep a message it was given for as long as it likes and hand it (or Copy()s of it, which share the payload by design) to consumers later, also while further messages are sent through the same bus / marshaler from any goroutine: \"published once ... carrying its type name and serialized value\" and \"a value equal to the one sent\" are judged on what the stored message carries when it is consumed; only the decoded value and the name metadata are demanded to be stable, not the bytes",
+			"Send / Publish are called with a context carrying the number of the send; the buses' msg.SetContext(ctx) makes it visible on the stored message, where it is used only to prefer one of several interchangeable Publish calls (never demanded)",
 			"the family label of a malformed payload is bookkeeping only (counters malformed_<family> / decodable_<family>); the expected outcome always comes from the reference decode of the delivered bytes",
 		},
-		Run: run,
+		RaceIsViolation: true,
+		Run:             run,
 	})
 }
 
@@ -97,6 +109,10 @@ type cfg struct {
 	BusHooks      bool   `json:"bus_hooks,omitempty"`
 	TopicByName   bool   `json:"topic_by_name"`
 	OneByOne      bool   `json:"add_one_by_one,omitempty"`
+	SendMode      string `json:"send_mode"`         // seq | conc (burst.go)
+	Senders       int    `json:"senders,omitempty"` // goroutines sharing the two buses (conc)
+	Extras        int    `json:"extra_sends"`       // further sends of the burst: only stored by the publisher, never consumed
+	Overlap       int    `json:"overlap_sends"`     // sends planned for the time the processors are handling the stored messages
 }
 
 var generators = []string{"default", "fq", "short", "named-fq", "named-short", "custom"}
@@ -170,8 +186,10 @@ type smsg struct {
 	ByValue bool
 	Bad     string // family of the corruption (malformed only)
 	sent    any
-	orig    *message.Message
-	busCtx  context.Context // context of the message as the real bus published it (only when sent with a value-carrying context)
+	orig    *message.Message // reference copy (harness-owned bytes): for a bus message, the snapshot taken inside Publish
+	live    *message.Message // the very message the bus handed to the publisher (nil for harness-built messages)
+	snap    *vlib.MsgSnap    // its value as snapshotted inside Publish
+	busCtx  context.Context  // context of the message as the real bus published it (only when sent with a value-carrying context)
 }
 
 type hdef struct {
@@ -197,6 +215,8 @@ type copyObs struct {
 	Settle string
 	Ctx    string // what the context of the delivered copy carried (see incomingCtx)
 	Invs   []inv
+	Kept   string // "" or how the stored message differed from its Publish-time snapshot when this copy was handed over
+	Live   bool   // the copy shares the payload of the stored message
 }
 
 type deliv struct {
@@ -225,14 +245,15 @@ type subDef struct {
 	onHandle    int
 
 	// handlers that own their value (mutate.go); all guarded by mu
-	HookMut    string         // what the OnHandle hook does to params.Event after the wrapped handler returned
-	HookRetain bool           // the hook keeps params.Event (after the wrapped handler returned)
-	hr         *vlib.Rand     // PRNG of the handler side (handlers of one subscription run one at a time)
-	retained   []retainedV    // pointers kept by earlier invocations (bounded)
-	copySeq    int            // number of the copy being delivered
-	curMut     map[*tdef]bool // types whose value an invocation of the current copy changed
-	mutSeen    map[string]int // "uuid|type" -> copySeq of the first effective mutation
-	ms         mutStats
+	HookMut                              string         // what the OnHandle hook does to params.Event after the wrapped handler returned
+	HookRetain                           bool           // the hook keeps params.Event (after the wrapped handler returned)
+	hr                                   *vlib.Rand     // PRNG of the handler side (handlers of one subscription run one at a time)
+	retained                             []retainedV    // pointers kept by earlier invocations (bounded)
+	keptChecks, liveCopies, bytesChanged int            // hand-over comparisons of stored bus messages (burst.go)
+	copySeq                              int            // number of the copy being delivered
+	curMut                               map[*tdef]bool // types whose value an invocation of the current copy changed
+	mutSeen                              map[string]int // "uuid|type" -> copySeq of the first effective mutation
+	ms                                   mutStats
 }
 
 type retainedV struct {
@@ -299,6 +320,15 @@ type caseState struct {
 	hs    []*hdef
 	failN map[string]int // "hidx|uuid" -> number of initial failing invocations (read-only while running)
 	uuidN atomic.Int64
+
+	// the sending side (burst.go)
+	pub       *vlib.Pub
+	cbus      *cqrs.CommandBus
+	ebus      *cqrs.EventBus
+	hookCalls atomic.Int32
+	sends     []*bsend      // every Send/Publish of the case, in planning order
+	tick      chan struct{} // poked at every hand-over / handler entry: paces the overlap sends (nil without overlap)
+	ks        keptStats
 }
 
 func fkey(h int, uuid string) string { return fmt.Sprintf("%d|%s", h, uuid) }
@@ -357,6 +387,14 @@ func plan(e *vlib.Env) *caseState {
 	c.BusHooks = r.Bool()
 	c.TopicByName = r.Bool()
 	c.OneByOne = r.Bool()
+	c.SendMode = "seq"
+	if r.Bool() {
+		c.SendMode, c.Senders = "conc", r.Range(2, 4)
+	}
+	c.Extras = []int{0, 3, 6, 12, 24}[r.Intn(5)]
+	if r.Chance(0.4) {
+		c.Overlap = r.Range(4, 16)
+	}
 	cs.fam = c.family()
 	fam := cs.fam
 
@@ -517,168 +555,20 @@ func (cs *caseState) topic(kind, name string) string {
 	// the configured topic function may depend on more than the name (e.g. a per-tenant topic computed from the value):
 	// cs.topicTag changes between sends of the same type, so the bus must ask the configuration every time
 	tag := ""
-	if t := cs.topicTag.Load(); t != nil && *t != "" {
-		tag = "/" + *t
+	if t := cs.topicTag.Load(); t != nil {
+		tag = *t
+	}
+	return cs.topicFor(kind, name, tag)
+}
+
+func (cs *caseState) topicFor(kind, name, tag string) string {
+	if tag != "" {
+		tag = "/" + tag
 	}
 	if cs.c.TopicByName {
 		return cs.e.ID() + "/" + kind + "/" + name + tag
 	}
 	return cs.e.ID() + "/" + kind + tag
-}
-
-func (cs *caseState) busPhase(res *vlib.Result) {
-	defer cs.topicTag.Store(nil) // the processors subscribe to the plain topics
-	c, e := &cs.c, cs.e
-	pub := &vlib.Pub{Name: e.ID()}
-	mar := c.marshaler(cs.newUUID)
-	var hookCalls atomic.Int32
-
-	var cbus *cqrs.CommandBus
-	var ebus *cqrs.EventBus
-	var err error
-	if c.LegacyCmdBus {
-		cbus, err = cqrs.NewCommandBus(pub, func(n string) string { return cs.topic("cmd", n) }, mar)
-	} else {
-		conf := cqrs.CommandBusConfig{
-			GeneratePublishTopic: func(p cqrs.CommandBusGeneratePublishTopicParams) (string, error) {
-				return cs.topic("cmd", p.CommandName), nil
-			},
-			Marshaler: mar,
-		}
-		if c.BusHooks {
-			conf.OnSend = func(p cqrs.CommandBusOnSendParams) error {
-				hookCalls.Add(1)
-				p.Message.Metadata.Set("x-hook", p.CommandName)
-				return nil
-			}
-		}
-		cbus, err = cqrs.NewCommandBusWithConfig(pub, conf)
-	}
-	if err != nil {
-		res.Verdict, res.Reason = vlib.HarnessError, "command bus: "+err.Error()
-		return
-	}
-	if c.LegacyEvtBus {
-		ebus, err = cqrs.NewEventBus(pub, func(n string) string { return cs.topic("evt", n) }, mar)
-	} else {
-		conf := cqrs.EventBusConfig{
-			GeneratePublishTopic: func(p cqrs.GenerateEventPublishTopicParams) (string, error) {
-				return cs.topic("evt", p.EventName), nil
-			},
-			Marshaler: mar,
-		}
-		if c.BusHooks {
-			conf.OnPublish = func(p cqrs.OnEventSendParams) error {
-				hookCalls.Add(1)
-				p.Message.Metadata.Set("x-hook", p.EventName)
-				return nil
-			}
-		}
-		ebus, err = cqrs.NewEventBusWithConfig(pub, conf)
-	}
-	if err != nil {
-		res.Verdict, res.Reason = vlib.HarnessError, "event bus: "+err.Error()
-		return
-	}
-
-	for _, m := range cs.msgs {
-		t := m.T
-		switch {
-		case m.Kind == "typed" && m.ViaBus:
-			v := m.sent
-			if m.ByValue {
-				v = derefValue(v)
-			}
-			before := len(pub.Calls())
-			var serr error
-			if cs.e.R.Chance(0.5) {
-				tg := fmt.Sprintf("tenant%d", cs.e.R.Intn(3))
-				cs.topicTag.Store(&tg)
-			} else {
-				cs.topicTag.Store(nil)
-			}
-			// half of the sends happen "inside a handler": with the context of an outer message being handled
-			sendCtx, nested := context.Background(), cs.e.R.Bool()
-			if nested {
-				outer := message.NewMessage(fmt.Sprintf("%s-outer%d", e.ID(), m.No), []byte(`{"outer":true}`))
-				outer.Metadata.Set("name", "outer."+m.Stream)
-				sendCtx = cqrs.CtxWithOriginalMessage(context.WithValue(sendCtx, harnessKey{}, "outer"), outer)
-			}
-			if m.Stream == "cmd" {
-				if cs.e.R.Chance(0.3) {
-					serr = cbus.SendWithModifiedMessage(sendCtx, v, func(mm *message.Message) error {
-						mm.Metadata.Set("x-mod", "1")
-						return nil
-					})
-				} else {
-					serr = cbus.Send(sendCtx, v)
-				}
-			} else {
-				serr = ebus.Publish(sendCtx, v)
-			}
-			calls := pub.Calls()[before:]
-			res.Events++
-			res.Count("bus_sends", 1)
-			desc := fmt.Sprintf("%s bus, value %s (by value: %v), marshaler %s/%s", m.Stream, show(m.sent), m.ByValue, c.MK, c.Gen)
-			if serr != nil {
-				res.Fail("bus-error", "%s: Send/Publish returned %v although every hook and the publisher succeed (publish calls: %d)", desc, serr, len(calls))
-				return
-			}
-			if len(calls) != 1 || len(calls[0].Snaps) != 1 {
-				nm := 0
-				for _, pc := range calls {
-					nm += len(pc.Snaps)
-				}
-				res.Fail("bus-publish-count", "%s: expected exactly one Publish call with one message, saw %d calls carrying %d messages", desc, len(calls), nm)
-				return
-			}
-			pc := calls[0]
-			if want := cs.topic(m.Stream, c.name(t)); pc.Topic != want {
-				res.Fail("bus-topic", "%s: published on topic %q, the configuration generates %q", desc, pc.Topic, want)
-				return
-			}
-			snap := pc.Snaps[0]
-			if got, ok := snap.Metadata["name"]; !ok || got != c.name(t) {
-				res.Fail("bus-name", "%s: published message carries name metadata %q (present=%v), type name is %q", desc, got, ok, c.name(t))
-				return
-			}
-			dv, derr := decode(c.MK, snap.Payload, t)
-			if derr != nil || !equal(dv, m.sent) {
-				res.Fail("bus-value", "%s: published payload %q decodes to %s (err=%v), not to the value sent", desc, trunc(snap.Payload), show(dv), derr)
-				return
-			}
-			m.orig = message.NewMessage(snap.UUID, snap.Payload)
-			for k, v := range snap.Metadata {
-				m.orig.Metadata.Set(k, v)
-			}
-			if nested && len(pc.Msgs) == 1 && pc.Msgs[0] != nil {
-				// what a context-preserving transport would hand to the consumer
-				m.busCtx = pc.Msgs[0].Context()
-			}
-		default:
-			good, eerr := encode(m.sent)
-			if eerr != nil {
-				res.Verdict, res.Reason = vlib.HarnessError, "reference encode: "+eerr.Error()
-				return
-			}
-			payload := good
-			switch m.Kind {
-			case "malformed":
-				m.Bad, payload = badPayload(e.R, t.codec, good, t)
-			case "foreign":
-				if e.R.Bool() {
-					payload = e.R.Payload(12)
-				}
-			}
-			m.orig = message.NewMessage(fmt.Sprintf("%s-h%d", e.ID(), m.No), payload)
-			if m.HasName {
-				m.orig.Metadata.Set("name", m.Name)
-			} else if e.R.Bool() {
-				m.orig.Metadata.Set("Name", c.name(t)) // wrong key: still foreign
-			}
-		}
-	}
-	res.Count("bus_hook_calls", int(hookCalls.Load()))
 }
 
 // ---------------------------------------------------------------------------------------------
@@ -687,6 +577,7 @@ func (cs *caseState) busPhase(res *vlib.Result) {
 func (cs *caseState) handlerFn(h *hdef) hfn {
 	return func(ctx context.Context, v any) error {
 		s := h.sub
+		cs.poke()
 		s.mu.Lock()
 		defer s.mu.Unlock()
 		// pointers kept by earlier invocations are written through now ("later" for them, "before" for this one) ...
@@ -1001,11 +892,20 @@ func (s *subDef) incomingCtx(base context.Context, d *deliv, prev *message.Messa
 	return "foreign-original", ctx
 }
 
-func (s *subDef) drive(sp *vlib.Subscription) {
+func (s *subDef) drive(cs *caseState, sp *vlib.Subscription) {
 	var prev *message.Message
 	for _, d := range s.D {
 		for n := 0; ; n++ {
 			cp := d.M.orig.Copy()
+			live, same, kept := d.M.live != nil, true, ""
+			if live {
+				// the stored message is handed over the way GoChannel (or any in-process transport) does it: Copy() shares
+				// the payload slice the marshaler produced. (b) it must still carry what it was published with.
+				cp = d.M.live.Copy()
+				cp.UUID = d.M.orig.UUID
+				name, has := cp.Metadata["name"]
+				same, kept = cs.keptDiff(cp.Payload, name, has, d.M.snap, d.M.T, d.M.sent)
+			}
 			mode, ctx := s.incomingCtx(sp.Ctx, d, prev)
 			cp.SetContext(ctx)
 			prev = cp
@@ -1013,7 +913,15 @@ func (s *subDef) drive(sp *vlib.Subscription) {
 			s.cur, s.curInvs = cp, nil
 			s.copySeq++
 			s.curMut = nil
+			if live {
+				s.keptChecks++
+				s.liveCopies++
+				if !same && kept == "" {
+					s.bytesChanged++
+				}
+			}
 			s.mu.Unlock()
+			cs.poke()
 			if !sp.Send(cp) {
 				s.mu.Lock()
 				s.cur, s.aborted = nil, true
@@ -1029,7 +937,7 @@ func (s *subDef) drive(sp *vlib.Subscription) {
 			case <-sp.Ended():
 			}
 			s.mu.Lock()
-			d.Obs = append(d.Obs, copyObs{Settle: st, Ctx: mode, Invs: s.curInvs})
+			d.Obs = append(d.Obs, copyObs{Settle: st, Ctx: mode, Invs: s.curInvs, Kept: kept, Live: live})
 			s.cur, s.curInvs = nil, nil
 			if st == "" {
 				s.aborted = true
@@ -1177,6 +1085,14 @@ func (cs *caseState) judge(s *subDef, res *vlib.Result, st *stats) []outcome {
 			res.Events += 1 + len(o.Invs)
 			st.copies++
 			st.invocations += len(o.Invs)
+			if o.Live {
+				res.Events++
+			}
+			if o.Kept != "" {
+				res.Fail("published-value-kept", "%s: the message the bus published no longer carried what it was published with when this copy (stored.Copy(): same payload slice) was handed to the processor: %s [handlers invoked %d, settlement %q; %d sends in the case, %d planned during handling]",
+					where, o.Kept, len(o.Invs), o.Settle, len(cs.sends), cs.c.Overlap)
+				return out
+			}
 			if o.Settle == "" {
 				res.Fail("unsettled", "%s: the copy was neither acked nor nacked (invocations %d)", where, len(o.Invs))
 				return out
@@ -1331,7 +1247,10 @@ func derefValue(p any) any { return reflectElem(p) }
 
 func run(e *vlib.Env) vlib.Result {
 	cs := plan(e)
-	res := vlib.Result{Class: cs.c.MK + "/" + cs.c.Gen}
+	res := vlib.Result{Class: cs.c.MK + "/" + cs.c.Gen + "/" + cs.c.SendMode}
+	if cs.c.Overlap > 0 {
+		cs.tick = make(chan struct{}, 1)
+	}
 	witness := func(extra any) {
 		res.Witness = map[string]any{"config": cs.c, "registry": cs.registry(), "detail": extra}
 	}
@@ -1400,11 +1319,18 @@ func run(e *vlib.Env) vlib.Result {
 			return res
 		}
 		wg.Add(1)
-		go func(s *subDef, sp *vlib.Subscription) { defer wg.Done(); s.drive(sp) }(s, sps[0])
+		go func(s *subDef, sp *vlib.Subscription) { defer wg.Done(); s.drive(cs, sp) }(s, sps[0])
 	}
+	// further sends through the same buses while the processors are handling the stored messages
+	overlap := cs.overlapSends()
+	callsBefore := len(cs.pub.Calls())
+	stopChat, chatDone := make(chan struct{}), make(chan struct{})
+	go cs.chatter(overlap, stopChat, chatDone)
 	drivers := make(chan struct{})
 	go func() { wg.Wait(); close(drivers) }()
 	oc, dump := vlib.WaitClosed(drivers, vlib.WD)
+	close(stopChat)
+	chatOC, chatDump := vlib.WaitClosed(chatDone, vlib.WD)
 
 	st := stats{by: map[string]int{}}
 	var outs []outcome
@@ -1436,6 +1362,28 @@ func run(e *vlib.Env) vlib.Result {
 		witness(outs)
 	}
 	shutdown()
+	if chatOC != vlib.Done {
+		res.Inconclusive("a Send/Publish made while the processors were handling did not return (%v)", chatOC)
+		if res.Witness == nil {
+			res.Witness = chatDump
+		}
+	} else if oc == vlib.Done && res.Verdict == "" {
+		// the sends made during handling are judged like those of the burst ...
+		var ran []*bsend
+		for _, b := range overlap {
+			if b.done {
+				ran = append(ran, b)
+			}
+		}
+		cs.ks.overlap, cs.ks.overlapPlanned = len(ran), len(overlap)
+		if len(ran) == 0 || cs.attribute(&res, ran, cs.pub.Calls()[callsBefore:]) {
+			// ... and (c) after the run every message the publisher stores still carries what it was published with
+			cs.keptAll(&res, "after the run (every delivery settled, Router closed)", &cs.ks.afterRun)
+		}
+		if res.Verdict != "" && res.Witness == nil {
+			witness(outs)
+		}
+	}
 	if oc == vlib.Done && res.Verdict == "" {
 		// after the Router is closed no handler may have been invoked outside a delivery
 		for _, s := range cs.subs {
@@ -1462,6 +1410,9 @@ func run(e *vlib.Env) vlib.Result {
 		ms.hookMut += s.ms.hookMut
 		ms.afterGroupMut += s.ms.afterGroupMut
 		ms.afterRedelivMut += s.ms.afterRedelivMut
+		cs.ks.delivery += s.keptChecks
+		cs.ks.liveCopies += s.liveCopies
+		cs.ks.bytesChangedSameValue += s.bytesChanged
 		s.mu.Unlock()
 		if s.Kind == "grp" {
 			seenH, seenT := map[*hdef]bool{}, map[string]int{}
@@ -1510,6 +1461,24 @@ func run(e *vlib.Env) vlib.Result {
 	res.Count("decodable_garbage_invoked", st.garbageOK)
 	for k, n := range st.by {
 		res.Count(k, n)
+	}
+	res.Count("bus_hook_calls", int(cs.hookCalls.Load()))
+	res.Count("bus_sends_in_burst", cs.ks.burst)
+	res.Count("bus_sends_extra_stored_only", cs.ks.extra)
+	res.Count("bus_sends_during_handling", cs.ks.overlap)
+	res.Count("bus_sends_during_handling_planned", cs.ks.overlapPlanned)
+	res.Count("bus_sends_attributed_by_context", cs.ks.ctxAttributed)
+	res.Count("kept_checks_after_burst", cs.ks.handover)
+	res.Count("kept_checks_at_hand_over", cs.ks.delivery)
+	res.Count("kept_checks_after_run", cs.ks.afterRun)
+	res.Count("copies_sharing_stored_payload", cs.ks.liveCopies)
+	res.Count("stored_payload_bytes_changed_same_value", cs.ks.bytesChangedSameValue)
+	res.Count("cases_send_"+cs.c.SendMode, 1)
+	if cs.c.SendMode == "conc" {
+		res.Count("sender_goroutines", cs.c.Senders)
+	}
+	if cs.c.Overlap > 0 {
+		res.Count("cases_with_sends_during_handling", 1)
 	}
 	res.Count("on_handle_calls", onHandle)
 	res.Count("handlers", len(cs.hs))
